@@ -261,12 +261,18 @@ Inductive hpc :=
 (* branch of handshake()'s select the scheduler lets win (Go picks any ready branch) *)
 Inductive hbranch := BErr | BCtx | BEst.
 
+(* HandshakeContext after a failed prepareHandshakeStart (dual-stack version negotiation, no state
+   machine yet): "if ctx.Err() == nil && c.isConnectionClosed() { return ErrConnClosed }" (commit
+   0805f5b; before, the closed transport's own error - EOF / use of closed network connection) *)
+Definition resolve_neg (x : hres) (c : conn) : hres :=
+  if closed c && negb (hctx c) then HClosed else x.
+
 Definition hs_step (b : hbranch) (h : hpc) (r : rpc) (c : conn) : hpc * rpc * conn :=
   match h with
   | HIdle => (HIdle, r, c)
   | HBegun => if dual c then (HNeg, r, c) else (HSelect, RRead, install c)
   | HNeg => if hctx c then (HRet HCtx, r, set_hs_open false c)
-            else if sock_closed c then (HRet (HErr RSockClosed), r, set_hs_open false c)
+            else if sock_closed c then (HRet (resolve_neg (HErr RSockClosed) c), r, set_hs_open false c)
             else (HNeg, r, c)
   | HSelect =>
       match b with
@@ -339,7 +345,7 @@ Definition env_step (e : env) (g : cfg) : cfg :=
       end
   | ERecvFatal =>
       match hs g, rd g with
-      | HNeg, _ => mkCfg (set_hs_open false c) (HRet (HErr RFatal)) (rd g) (us g)
+      | HNeg, _ => mkCfg (set_hs_open false c) (HRet (resolve_neg (HErr RFatal) c)) (rd g) (us g)
       | _, RRead => if sock_closed c then g else mkCfg c (hs g) (RClassify RFatal) (us g)
       | _, _ => g
       end
